@@ -6,6 +6,8 @@ fresh dialect, threads sharing one dialect; every fixture under every other dial
 generated inputs (> 2^16 tokens / memo locations) and slice-length straddles (2^8, 2^16) with the cache on vs off;
 (3) correspondence: recorded longest_match calls replayed on the model; (4) monitors: cache hits vs recomputation,
 location keys vs (token, slice length).
+c13x.rs adds: the pruning decision on generated prune_options calls (group `prune`), the audit of first-token hints,
+grammar-directed sentences into every option (aimed / confusable) and placeholder-templated inputs.
 post: the 13 Keys_<d>.v obligations are compiled by coqc."""
 import os
 
@@ -53,6 +55,12 @@ def _post(ctx):
         big_inputs=[r["v"] for r in recs if r.get("t") == "stat" and isinstance(r.get("v"), dict) and "big_input" in r["v"]],
         big_inputs_reaching_2_16={k: v for k, v in c.items() if k.startswith("big_inputs_with_")},
         slice_length_sites={k: v for k, v in c.items() if "slice_length_sites" in k},
+        pruning_decision={k: v for k, v in c.items() if k.startswith("prune_") and not k.startswith("prune_calls_pattern_")},
+        pruning_decision_patterns={k[len("prune_calls_pattern_"):]: v for k, v in c.items()
+                                   if k.startswith("prune_calls_pattern_") and len(k) <= len("prune_calls_pattern_") + 2 or k.startswith("prune_calls_pattern_r") or k.startswith("prune_calls_pattern_g")},
+        grammar_directed={k: v for k, v in c.items() if k in ("K_nodes_without_a_known_sentence", "alternatives_with_a_confusable_first_token",
+                                                              "options_pruned_at_their_own_sentence", "K_nodes_on_a_left_corner_cycle(not asked for a hint)")},
+        unsound_hints=[r["v"]["unsound_hint"] for r in recs if r.get("t") == "stat" and isinstance(r.get("v"), dict) and "unsound_hint" in r["v"]][:12],
         generated_key_theorems_closed=sum(out.count("Closed under the global context") for _, (ok, out) in res.items()),
     )
     # pruning on the interpreter of the whole engine: the side condition hints_sound_b of Pem_prune_transparent (Props/C13.v) on every
@@ -63,13 +71,15 @@ def _post(ctx):
         case_d = DIALECTS
     else:   # quick: one dialect, rotating with the seed (the reference twin runs without pruning: about twice the cost of the replay itself)
         case_d = [DIALECTS[ctx["seed"] % len(DIALECTS)]]
-    cpem.pem_stage(ctx, dialects=DIALECTS, with_cases=True, hints_sound=True, case_dialects=case_d)
+    # quick: at most 15 recorded parses, the reference twin on every one of them
+    cpem.pem_stage(ctx, dialects=DIALECTS, with_cases=True, hints_sound=True, case_dialects=case_d,
+                   max_cases=(None if ctx["tier"] == "thorough" else 15), prune_stride=1)
 
 
 CFG = dict(
     prop="C13", level="proof", harness="c13",
     props_files=["theories/Props/C13.v"], corr_file="theories/Corr/C13.v", corr_module="Corr.C13",
-    groups={"lm": False}, pre=_pre, post=_post, shard=250, harness_timeout=2400,
+    groups={"lm": False, "prune": True}, show_fn={"prune": "model_prune"}, pre=_pre, post=_post, shard=250, harness_timeout=2400,
     extra_targets=["theories/Corr/Pem.vo", "theories/Pem/NoPanicMon.vo", "theories/Pem/PruneMon.vo"],   # imported by the generated PemGrammar_<d>.v / PemPrune_<d>.v / Cases_PEM_* of the Pem stage
     design_ref="DESIGN.md 6.13",
     technique="Coq proof of cache and pruning transparency of the longest_match loop (memoisation invariant; pruned options are "
@@ -118,14 +128,32 @@ CFG = dict(
          "place of an explored input where one matcher at one token answers differently on two slice lengths (found with the "
          "longest_match recorder on the unchanged input), the input with block comments inserted so that the two slices are "
          "exactly 2^8 (+-1) / 2^16 tokens apart; "
+         "grammar-directed sentences: for every node of the option set K of every dialect a complete statement (shortest token "
+         "prefix that brings the parser to the node + shortest sentence of the node + shortest completion of the enclosing "
+         "sequences/brackets; string parsers with every text they accept) = class aimed, and the same with the first token "
+         "replaced by a text that another alternative of the same option list claims through its raw hint while this alternative "
+         "claims it through its type hint = class confusable; parsed 3 ways; "
+         "placeholder-templated inputs (values that render to several tokens with repeated tokens; C04's shape and corpus "
+         "generators, 7 placeholder styles) parsed through Linter::parse_string 5 ways (baseline with both audits, cache off, "
+         "prune off, both off, repeat), CPU limit 15 s per parse; "
+         "group prune: the real prune_options on generated calls = every token of the dialect's vocabulary (every text a string "
+         "parser of the grammar accepts, keyword sets, generic lexemes and operators, one token per token kind of the fixtures) x "
+         "option lists of real nodes of K: every ordered pair of {kept by raw hint, kept by type hint, by both, not simple, dropped} "
+         "(quick: pairs with at least one claiming option), longer lists drawn over the five categories, real option lists holding an "
+         "option that claims the token (in order, shuffled, windows of long lists), random sub-lists of K, and the same lists asked at "
+         "the white space behind the token; survivors compared with Cache.Model.prune (= filter keep); "
          "correspondence cases = recorded longest_match calls (3 switch settings) of every 12th (quick) / 6th (thorough) input; "
          "non-trivial input = baseline parse produced a tree and the input has >= 4 words; non-trivial call = >= 2 options and "
          "(a cache hit, a pruned option or a terminator probe); distinct = distinct (args, expected) of calls + distinct non-trivial inputs",
     assumptions=[
         "H_mfn: the result of matching an option at a position depends only on (loc_key, cache_key) and nested calls keep the "
         "cache consistent (key part discharged statically on K; context part observed end to end only)",
-        "H_simple_sound: an option whose simple() hint excludes the next code token cannot match (observed end to end: prune-off vs prune-on "
-        "trees; proved on the interpreter of the whole engine as Pem_hint_sound under hints_sound_b, a generated obligation per dialect)",
+        "H_simple_sound: an option whose simple() hint excludes the next code token cannot match (observed end to end: prune-off vs "
+        "prune-on trees; monitored, blocking: every reachable reference has the hint of the element it resolves to, every option of K "
+        "survives pruning at its own shortest sentence and at every text its string parser accepts, an option dropped in a generated "
+        "prune_options call does not match at that token; known exception kept as a diagnostic monitor: a NodeMatcher takes a token "
+        "that already has its kind without consulting the grammar the hint is computed from; proved on the interpreter of the whole "
+        "engine as Pem_hint_sound under hints_sound_b, a generated obligation per dialect)",
         "H_toks_ok (premise of Pem_prune_transparent, diagnostic monitor on recorded parses): a code token whose ASCII-upper-cased raw is a "
         "string-parser template upper-cases to the same string under to_uppercase, its class types contain its type, and it does not carry "
         "the kind of a NodeMatcher in scope whose hint lacks that kind (fails for numeric literals)",
